@@ -15,7 +15,12 @@ ASSUMPTIONS = ['C locale (decimal point)', 'hand-written transliteration validat
                'glibc printf/scanf agree with the reference conversions of LibcPrint.v (checked on every number in the run)',
                'python json (strict mode, constants rejected) is the independent RFC 8259 reader']
 
-def corpus(ctx): return load_corpus(ctx['verif'], 'C05')
+def corpus(ctx):
+    cs = load_corpus(ctx['verif'], 'C05')
+    for c in cs:
+        if c.line.startswith('printall '):
+            t = tree_of_line(c.line, 4); c.info.update({'tree': t, 'ok': printable(t) and utf8_tree(t)})
+    return cs
 
 def add_all(cases, tree, rng, tag, prebuffers=None, allocs=('hooks', 'realloc')):
     line = pline(tree)
@@ -32,7 +37,7 @@ def generate(ctx):
     rng = random.Random(ctx['seed'] * 6151 + 5)
     quick = ctx['tier'] == 'quick'
     cases = []
-    for i in range(120 if quick else 4000):
+    for i in range(300 if quick else 4000):
         t = rand_tree(rng, depth=rng.choice([1, 2, 3, 4]), wf=True)
         if not utf8_tree(t):
             for x in all_nodes(t):
@@ -42,7 +47,7 @@ def generate(ctx):
             nums = [x for x in all_nodes(t) if (x.ty & 0xFF) == T_NUMBER]
             if nums: rng.choice(nums).vd = rng.choice([float('inf'), float('-inf'), float('nan')])
         add_all(cases, t, rng, 'utf8-tree', allocs=('hooks', 'realloc') if i % 3 == 0 else (rng.choice(['hooks', 'realloc']),))
-    for i in range(40 if quick else 1000):
+    for i in range(80 if quick else 1000):
         add_all(cases, rand_tree(rng, depth=rng.choice([1, 2, 3]), wf=False), rng, 'outside-precondition', allocs=(rng.choice(['hooks', 'realloc']),))
     # every prebuffer boundary on a few fixed trees
     fixed = [PN(T_ARRAY, ch=[PN(T_STRING, vs=b'a"\x01\n' + 'é'.encode()), PN(T_NUMBER, vi=1, vd=1.5), PN(T_OBJECT, ch=[PN(T_ARRAY, key=b'k'), PN(T_OBJECT, key=b'')])]),
@@ -52,7 +57,7 @@ def generate(ctx):
         L = len(py_render(t, True)); U = len(py_render(t, False))
         add_all(cases, t, rng, 'prebuffer-boundaries', prebuffers=sorted({0, 1, L - 1, L, L + 1, U - 1, U, U + 1, 255, 256, 257}))
     # numbers: one node each
-    for d in number_stream(rng, 150 if quick else 2000):
+    for d in number_stream(rng, 300 if quick else 2000):
         add_all(cases, PN(T_ARRAY, ch=[num_node(rng, d, consistent=(rng.random() < 0.8))]), rng, 'number', prebuffers=[rng.choice([0, 5, 256])], allocs=(rng.choice(['hooks', 'realloc']),))
     for s in STR_BYTES + [rand_utf8(rng, 20) for _ in range(20 if quick else 300)]:
         if is_utf8(s): add_all(cases, PN(T_OBJECT, ch=[PN(T_STRING, vs=s, key=s[:6] if is_utf8(s[:6]) else b'k')]), rng, 'string', prebuffers=[rng.choice([0, len(s), 256])], allocs=('hooks',))
@@ -107,7 +112,10 @@ def verdict(c, out, ctx):
     if (P is None) != (U is None): return 'formatted and unformatted printing disagree about success'
     if P is None:
         return 'printing failed for a printable tree' if printable(tree) else None
-    if strip_ws(P) != strip_ws(U): return 'formatted and unformatted text differ outside whitespace'
+    # a raw node copies arbitrary bytes (possibly an unbalanced quote) into the text: the string-aware comparison only
+    # makes sense without raw nodes; the agreement of the entry points above is checked for every tree
+    has_raw = any((x.ty & 0xFF) == T_RAW for x in all_nodes(tree))
+    if not has_raw and strip_ws(P) != strip_ws(U): return 'formatted and unformatted text differ outside whitespace'
     if not c.info.get('ok'): return None
     if strip_ws(P) != U: return 'formatted text minus whitespace outside strings is not the unformatted text'
     for name, txt in (('formatted', P), ('unformatted', U)):
